@@ -7,7 +7,8 @@ package main
 //   * world options (a second LST nobody holds at genesis, non-default x/exomint and x/feedistribution params),
 //   * further history steps (operators registered during the history — with an earnings address of their own, without
 //     any stake —, opting into the second AVS and STAYING opted in, an operator undelegating its own stake),
-//   * directed boundary scenarios B0..B8 (see genBoundary), each exported / validated / re-imported like every other state,
+//   * directed boundary scenarios B0..B11 (see genBoundary) and B12..B14 (dom_genesis_emptied.go: pools everybody has left,
+//     undelegations completed), each exported / validated / re-imported like every other state,
 //   * the operator-module and params views fed to the Lean model (`gen.o*`, `gen.mp`, `gen.dp` ops): the driver must print the
 //     verdict of the real x/operator GenesisState.Validate on the exported key records / USD values and the re-imported
 //     x/exomint / x/feedistribution params.
@@ -324,7 +325,9 @@ func genBoundary(env *Env, rng *RNG) {
 		w.blocks(time.Second)
 		w.must("undelegate-all", w.onAsset(1, func() error { return w.delegate(1, 2, 3000000, true) }))
 		if withdrawn {
-			w.blocks(hour, hour, hour, time.Second)
+			// (an undelegation completes UnbondingExpiration = 10 blocks after it started, once x/dogfood has released it)
+			_, left := w.matureAll()
+			env.Outcome(fmt.Sprintf("boundary:B2:left=%d", left))
 			w.must("withdraw-all", w.onAsset(1, func() error { return w.withdraw(1, 3000000) }))
 		}
 		w.runOne(0, false, 4)
@@ -439,6 +442,9 @@ func genBoundary(env *Env, rng *RNG) {
 	w.note("AVS %s registered, no operator opts in", w.avs2)
 	w.blocks(hour, time.Minute)
 	w.runOne(0, false, 4)
+
+	// B12..B14 (dom_genesis_emptied.go): pools everybody has left, with the undelegations completed
+	genBoundaryEmptied(env, world)
 	genNextOpts = genOpts{}
 }
 
